@@ -14,6 +14,7 @@ mod pool;
 mod props;
 mod pysrc;
 mod rawjson;
+mod refcheck;
 mod stdlib;
 mod tree;
 
